@@ -1,19 +1,28 @@
 import AtreeModel.Health
 import AtreeModel.Storage
 import AtreeModel.Replay.Common
-/- Replays the health stream: heaps dumped by the harness, `CheckStorageHealth` outcomes and
-   `GetAllChildReferences` results. -/
+/- Replays the health stream: heaps and storage states dumped by the harness, `CheckStorageHealth`
+   outcomes (on the heap: `HC`; through the slab iterator on the storage state: `HCS`), the slab
+   iterator itself (`ITER`) and `GetAllChildReferences` results (`REFS`).
+
+   Error kinds are compared EXACTLY.  Go visits the slabs in map order, the model in list order,
+   but on a heap with unique keys the check that fires does not depend on the order
+   (`Health.check_perm`, AtreeProofs/Health/Order.lean) unless the run diverges. -/
 namespace Atree.Replay
 open Atree
 
 structure HealthState where
   heap : Heap := []
+  sto : St HSlab HSlab := St.init
   pending : List String := []
   rep : Report := {}
 
 namespace HealthState
 
 def note (s : HealthState) (msg : String) : HealthState := { s with rep := s.rep.mismatch msg }
+
+def parseRefs (refs : String) : List SlabID :=
+  if refs.isEmpty then [] else (refs.splitOn ",").filterMap parseID
 
 def parseHeap (str : String) : Heap :=
   if str.isEmpty then [] else
@@ -22,15 +31,42 @@ def parseHeap (str : String) : Heap :=
     | [ids, addr, refs] => do
       let id ← parseID ids
       let a ← addr.toNat?
-      let rs := if refs.isEmpty then [] else (refs.splitOn ",").filterMap parseID
-      pure (id, { self := ⟨a, id.idx⟩, refs := rs })
+      pure (id, { self := ⟨a, id.idx⟩, refs := parseRefs refs })
     | _ => none)
+
+/-- entries of the write set / the cache: `id:addr:refs` or `id:nil` -/
+def parseOpt (str : String) : AList SlabID (Option HSlab) :=
+  if str.isEmpty then [] else
+  (str.splitOn ";").filterMap (fun ent =>
+    match ent.splitOn ":" with
+    | [ids, "nil"] => do
+      let id ← parseID ids
+      pure (id, none)
+    | [ids, addr, refs] => do
+      let id ← parseID ids
+      let a ← addr.toNat?
+      pure (id, some { self := ⟨a, id.idx⟩, refs := parseRefs refs })
+    | _ => none)
+
+/-- the identity codec: registers are dumped already reduced to `HSlab` -/
+def idCodec : Codec HSlab HSlab := { enc := some, dec := fun _ b => some b, size := fun _ => 0 }
 
 def idList (l : List SlabID) : String := ",".intercalate ((St.sortIDs l).map (·.render))
 
 def herr : HErr → String
   | .twoParents => "TwoParents" | .twoRefsToLeaf => "TwoRefsToLeaf" | .slabNotFound => "SlabNotFound"
   | .owner => "Owner" | .unreachable => "Unreachable" | .rootCount => "RootCount" | .diverges => "DIVERGES"
+  | .duplicate => "Duplicate" | .decoding => "Decoding"
+
+def expectedOf (fs : List (String × String)) : Option Nat :=
+  match fget fs "expected" with
+  | some "-1" => none
+  | some x => x.toNat?
+  | none => none
+
+def checkObs : Except HErr (List SlabID) → String
+  | .ok roots => "OBS ok:" ++ idList roots
+  | .error e => "OBS err:" ++ herr e
 
 def stepLine (s : HealthState) (line : String) (lineNo : Nat) : HealthState :=
   let ws := line.splitOn " "
@@ -38,30 +74,34 @@ def stepLine (s : HealthState) (line : String) (lineNo : Nat) : HealthState :=
   match ws with
   | ["HEAP"] => { s with heap := [] }
   | ["HEAP", h] => { s with heap := parseHeap h }
-  | "HC" :: rest =>
+  | "STO" :: rest =>
     let fs := fields rest
-    let expected : Option Nat := match fget fs "expected" with
-      | some "-1" => none
-      | some x => x.toNat?
-      | none => none
+    let get := fun k => (fget fs k).getD ""
+    { s with sto := { deltas := parseOpt (get "d"), cache := parseOpt (get "c"),
+                      base := parseHeap (get "b"), tempIx := 0, alloc := [] } }
+  | "HC" :: rest =>
     let s := { s with rep := { s.rep with ops := s.rep.ops + 1 } }
-    match Health.check s.heap expected with
-    | .ok roots => { s with pending := ["OBS ok:" ++ idList roots] }
+    { s with pending := [checkObs (Health.check s.heap (expectedOf (fields rest)))] }
+  | "HCS" :: rest =>
+    let s := { s with rep := { s.rep with ops := s.rep.ops + 1 } }
+    { s with pending := [checkObs (Health.checkStorage idCodec (fun _ v => v) s.sto (expectedOf (fields rest)))] }
+  | "ITER" :: _ =>
+    let s := { s with rep := { s.rep with ops := s.rep.ops + 1 } }
+    match Health.slabIterator idCodec (fun _ v => v) s.sto with
+    | .ok ys => { s with pending := ["OBS ok:" ++ idList (ys.map (·.1))] }
     | .error e => { s with pending := ["OBS err:" ++ herr e] }
   | "REFS" :: rest =>
     let root := ((fget (fields rest) "root").bind parseID).getD SlabID.undef
     let s := { s with rep := { s.rep with ops := s.rep.ops + 1 } }
     match Health.allChildReferences s.heap root with
-    | some (refs, broken) => { s with pending := ["OBS ok:" ++ idList refs ++ "|" ++ idList broken] }
-    | none => { s with pending := ["OBS err:SlabNotFound"] }
+    | .ok (refs, broken) => { s with pending := ["OBS ok:" ++ idList refs ++ "|" ++ idList broken] }
+    | .error e => { s with pending := ["OBS err:" ++ herr e] }
   | "OBS" :: _ =>
     match s.pending with
     | [] => s.note s!"line {lineNo}: unexpected OBS"
     | p :: ps =>
       let s := { s with pending := ps, rep := { s.rep with compared := s.rep.compared + 1 } }
-      -- which error is reported first depends on Go's map iteration order: compare the class
-      let cls := fun (x : String) => if x.startsWith "OBS err:" then "OBS err" else x
-      if cls p == cls line then s
+      if p == line then s
       else s.note s!"line {lineNo}: differs\n  model: {p}\n  impl : {line}"
   | _ => s
 
